@@ -157,6 +157,61 @@ class RefusesPickling:
         raise RuntimeError("this object refuses to be pickled")
 
 
+# ---- subclasses of the built-in containers (module level: dill / pickle find them by name) ----
+import collections as _collections
+
+
+class UserList(list):
+    pass
+
+
+class UserTuple(tuple):
+    pass
+
+
+class UserDict(dict):
+    pass
+
+
+PointNT = _collections.namedtuple("PointNT", "x y")
+MixedNT = _collections.namedtuple("MixedNT", "name value arr")
+CONTAINER_SUBCLASSES = [
+    "torch_Size", "torch_Size_empty", "namedtuple_numeric", "namedtuple_mixed", "list_subclass", "tuple_subclass", "OrderedDict",
+    "defaultdict_list", "Counter", "dict_subclass", "frozenset",
+]
+
+
+def container_subclass(name, seed):
+    arr = make_array("i16", (3,), int(seed) + 51)
+    if name == "torch_Size":
+        return torch.Size([2, 3])
+    if name == "torch_Size_empty":
+        return torch.Size([])
+    if name == "namedtuple_numeric":
+        return PointNT(1, 2.5)
+    if name == "namedtuple_mixed":
+        return MixedNT("s", -1, arr)
+    if name == "list_subclass":
+        return UserList(["s", 2, arr])
+    if name == "tuple_subclass":
+        return UserTuple(("s", None, 1.5))
+    if name == "OrderedDict":
+        return _collections.OrderedDict([("k", arr), ("a", "s"), ("n", None)])
+    if name == "defaultdict_list":
+        d = _collections.defaultdict(list)
+        d["a"].append(1)
+        d["b"]
+        d["c"].append("s")
+        return d
+    if name == "Counter":
+        return _collections.Counter({"a": 2, "b": 1})
+    if name == "dict_subclass":
+        return UserDict(k=arr, s="s", t=(1, "s"))
+    if name == "frozenset":
+        return frozenset({"s", 1, 2.5})
+    raise ValueError(name)
+
+
 class HybridRoot(AutoSerialize, torch.nn.Module):
     """A ROOT that is both AutoSerialize and torch.nn.Module (the pattern of the ptychography object / probe models):
     parameters, buffers and sub-modules live in _parameters / _buffers / _modules, not in the instance dict."""
@@ -437,6 +492,10 @@ def leaf(name):
         if name.startswith("tv:"):
             _, layout, dt, rg = name.split(":")
             lf = Leaf(name, "tensor", (lambda seed, layout=layout, dt=dt, rg=rg: tensor_layout(layout, dt, rg == "1", seed)))
+            _DYN[name] = lf
+            return lf
+        if name.startswith("cs:"):
+            lf = Leaf(name, "container_subclass", (lambda seed, n=name[3:]: container_subclass(n, seed)))
             _DYN[name] = lf
             return lf
         if name.startswith("av:"):
@@ -1136,6 +1195,21 @@ def mode_graphs():
     }
 
 
+def _container_subclass_graphs():
+    """Subclasses of the built-in containers in every leaf position. What must come back is the BASE kind (tuple / list /
+    dict / set) with equal elements; whether the subclass itself comes back is counted."""
+    out = []
+    for n in CONTAINER_SUBCLASSES:
+        lf = f"cs:{n}"
+        tag = {"kind": "container_subclass", "subclass": n}
+        for g in (
+            O("Root", x=L(lf)), O("Root", x=C("list", L(lf), L("s"))), O("Root", x=C("tuple", L("i-1"), L(lf))),
+            O("Root", x=D(("k", L(lf)), ("n", L("none")))), O("Root", c=O("NodeA", x=L(lf), v=L("s"))),
+        ):
+            out.append((g, tag))
+    return out
+
+
 def _pair_graphs_quick(reps):
     """Quick tier: unordered pairs (with the diagonal) in lists and dicts, plus the reversed order whenever the
     second member is the numeric representative; unordered distinct hashable pairs in sets; the diagonal in
@@ -1236,6 +1310,7 @@ def grammar(tier):
         add("names", names)
     # J. memory layouts of tensors and arrays; K. spellings of dict keys and attribute names
     add("aliasing", _aliasing_graphs())
+    add("container_subclass", _container_subclass_graphs())
     add("layout", _layout_graphs(quick))
     add("key_spelling", _key_graphs(quick))
     # I. wide containers (slot names with 1, 2 and 3 digits)
@@ -1487,7 +1562,8 @@ def _cmp(e, g, path, pos, slack, out):
         return
     # ---- list / tuple
     if isinstance(e, (list, tuple)):
-        if type(g) is not type(e):
+        base = list if isinstance(e, list) else tuple
+        if type(g) is not type(e) and not (slack and type(g) is base):  # a subclass may come back as its base kind
             out.add(path, pos, "container_kind", type(e).__name__, short(g), kind)
             return
         if len(g) != len(e):
@@ -1509,7 +1585,7 @@ def _cmp(e, g, path, pos, slack, out):
         return
     # ---- set / frozenset: same kind, same size, a perfect matching of equal elements
     if isinstance(e, (set, frozenset)):
-        if type(g) is not type(e):
+        if type(g) is not type(e) and not (slack and type(g) in (set, frozenset) and type(e) not in (set,)):
             out.add(path, pos, "container_kind", type(e).__name__, short(g), kind)
             return
         if len(g) != len(e):
@@ -1536,7 +1612,7 @@ def _cmp(e, g, path, pos, slack, out):
         return
     # ---- dict
     if isinstance(e, dict):
-        if type(g) is not type(e):
+        if type(g) is not type(e) and not (slack and type(g) is dict):
             out.add(path, pos, "container_kind", type(e).__name__, short(g), kind)
             return
         ke, kg = set(e), set(g)
